@@ -17,7 +17,8 @@ MANIFEST = dict(
          "m = 1, equal / disjoint / nested / tiny sets; per cell the mean fraction of equal positions over trials with fresh "
          "random items must lie within the empirical-Bernstein radius (delta = 1e-9) of J. The variance in the sparse regime "
          "is far above the MinHash value, so no variance bound is asserted (the property states none). No exact counting "
-         "(L1) is attempted: the collision analysis of copy-of-copy densification is not a uniform counting problem.",
+         "(L1) is attempted: the collision analysis of copy-of-copy densification is not a uniform counting problem."
+         " Cells also run both sets through one sketcher object reused with reinit.",
     design_ref="DESIGN.md section 2.6 and section 4, C09/C08",
     note="statistical test: bias below the radius (about 0.002-0.01 depending on the cell) is invisible; false-alarm "
          "probability <= 1e-9 per cell",
